@@ -49,6 +49,8 @@ func runC18(p *Prog, r *Report) {
 	fa := newFA(p, r, fn)
 	pkg := fn.Params[1]
 	c18Listed(p, r, fn)
+	r.Rule("D8-history-free", "the decision depends on its arguments only: no process-wide mutable state")
+	noSharedMutableState(p, r, "D8-history-free", "a memo keyed by the version string alone returns, for one ecosystem, a version parsed under another, and the comparison degenerates", append([]*ssa.Function{fn}, fn.AnonFuncs...), "guidedremediation/internal/vulns", "guidedremediation/internal/util")
 	r.Rule("D7-every-range-evaluated", "a range of a matching type is always sorted and searched")
 	frozenSkips(p, r, "D7-every-range-evaluated", "vulns.IsAffected", fn, func(in ssa.Instruction) bool {
 		c, ok := in.(*ssa.Call)
